@@ -267,7 +267,8 @@ def _edit_loop(E, kind):
     E.I.sum_linear([(1, w_sum), (-1, new_sum), (1, old_sum), (-1, slack_sum)])
     E.prove(f"{wprop}.{P}.weight_is_score_change_plus_the_kernel_slack_of_each_iteration", E.eq(
         w, SReal(zreal(E.method(new, "get_score")) - zreal(E.method(old, "get_score")) + slack_sum.t)))
-    E.prove(f"{wprop}.{P}.args_are_the_new_arguments", E.eq(E.method(new, "get_args"), (new_init, new_xs)))
+    # (C12: the trace must record the arguments the loop was re-run on - a follow-up update with default argdiffs starts from them)
+    E.prove(f"{wprop}.{P}.args_are_the_new_arguments", E.eq(E.method(new, "get_args"), (new_init, new_xs)), also=["C12"])
     ret = E.method(new, "get_retval")
     E.prove(f"C12.{P}.retval_is_final_carry_and_stacked_outputs", E.And(
         E.I.to_u(ret[0]) == T.d_primal(E.I.to_u(loop.carry_at(n)[2])),
